@@ -35,6 +35,10 @@ CLAIMED = {
          "Policy-decision half, decided inductively: one decide_should_retry step of Default / DowngradingConsistency / Fallthrough from an ARBITRARY session state, every RequestAttemptError and DbError variant with all scalar fields symbolic: non-idempotent requests are re-sent only after unavailable/bootstrapping/no-stream-id/read-timeout, never after broken connection/overloaded/server/truncate/write-timeout; Default never retries at serial consistency; same-target retries consume one-shot flags (bound 2 / 1 / 0); reset clears the flags.",
          "The executor honouring the decisions (async run_request_speculative_fiber, pager, speculative execution) is NOT decided. Trusted: mir2smt translator, models of derived PartialEq / reference comparisons / tracing-disabled, enum variant order parsed from source.",
          S),
+ "C09": ("DESIGN.md §5 C09",
+         "QUERY requests: QueryParameters::serialize for every subset of the optional fields x small value lists, and the whole frame from SerializedRequest::make (version, flags incl. tracing and the compression bit, opcode, length field, body) are equal byte-for-byte to an independent CQL v4 encoder for all field values; the checked length writers refuse every oversize length (all usize values) and otherwise write the exact big-endian prefix.",
+         "Only QUERY (and the parameter block shared with EXECUTE) plus the frame header are decided; EXECUTE ids, BATCH, PREPARE, REGISTER, OPTIONS, AUTH_RESPONSE, STARTUP bodies are not yet; LZ4/Snappy bodies are replaced by an opaque body (only the header of compressed frames is checked). Value lists <= 2 cells, paging state <= 2 bytes.",
+         S),
  "C11": ("DESIGN.md §5 C11",
          "shard_of == ScyllaDB's formula and < nr_shards for ALL tokens x shard counts 1..=65535 x msb 0..=63; lowest-port rule for ALL valid port ranges and shard counts (Some = lowest congruent port in range, None iff none exists); ShardInfo::new rejects iff shard >= nr_shards; plus Kani on the draw/iterate glue with the RNG replaced by arbitrary values for small windows.",
          "INT encoding (explicit mod 2^k) for the arithmetic; translator validated every run against native execution on seeded inputs. Iterator glue: nr_shards in {3,7} (thorough more), port windows < 24 ports. msb_ignore >= 64 and SUPPORTED-options parsing (HashMap) outside.",
